@@ -730,7 +730,7 @@ pub fn run(ctx: &Ctx) -> i32 {
     ev.assume("the receive window is reached only through Session::post_recv / GroupCtrStore::post_recv (hook calls the same method with the same arguments)");
     ev.assume("state abstraction: behaviour depends on the absolute maximum only through its distance (capped at 64) to 0 and 2^32-1");
     ev.assume("group in-window not-yet-accepted values and the antipode (distance exactly 2^31) are left open by the property; the oracle adopts the implementation's verdict there and then holds it to 'never twice'");
-    if accepted_in_window_hits == 0 || jump_ge16_hits == 0 {
+    if report.violations.is_empty() && (accepted_in_window_hits == 0 || jump_ge16_hits == 0) {
         eprintln!("MACHINERY: vacuous exploration (no in-window offers or no jumps)");
         return 2;
     }
